@@ -10,6 +10,8 @@ import Cctz.Model.Tz
 import Cctz.Spec.TzifSem
 import Cctz.Proofs.DecodeLemmas
 import Cctz.Proofs.DcMain
+import Cctz.Proofs.DcAccept
+import Cctz.Proofs.DcUnique
 
 namespace Cctz.C01Decode
 open Cctz Cctz.Tz Cctz.Spec
@@ -42,12 +44,169 @@ def load_decodes_statement : Prop :=
       tableOf d z.defaultType <+: z.transitions.toList.map (fun t => (t.unixTime, t.typeIndex)) ∧
       z.defaultType = specDefaultType d
 
+/-- the specification reads a byte string in at most one way: header counts and content are
+functions of the bytes (so "the content of the file" in `load_decodes` is well defined, and the
+statement also holds for every reading, `load_decodes_any`) -/
+def isTzif_unique_statement : Prop :=
+  ∀ (b : Bytes) (hdr hdr' : Hdr) (d d' : TzData), IsTzif b hdr d → IsTzif b hdr' d' → hdr = hdr' ∧ d = d'
+
+def load_decodes_any_statement : Prop :=
+  ∀ (cfg : LoadCfg) (b : Bytes) (z : Zone) (hdr : Hdr) (d : TzData),
+    (load cfg b).val = .ok z → IsTzif b hdr d →
+      Acceptable hdr d ∧
+      z.futureSpec = d.footer ∧
+      (z.types.toList.take d.types.length).map (fun t => (t.utcOffset, t.isDst, t.abbrIndex)) = d.types ∧
+      d.abbrs <+: z.abbreviations ∧
+      tableOf d z.defaultType <+: z.transitions.toList.map (fun t => (t.unixTime, t.typeIndex)) ∧
+      z.defaultType = specDefaultType d
+
+/-! ### the converse direction: which files load -/
+
+/-- the table `Load` hands to `ExtendTransitions` for a file with content `d`: `tableOf d` with the
+before-first-transition type `specDefaultType d`, the file's type records, designations and footer -/
+def initialZone (d : TzData) : Zone :=
+  { transitions := ((tableOf d (specDefaultType d)).map fun p =>
+      ({ unixTime := p.1, typeIndex := p.2 } : Transition)).toArray
+    types := (d.types.map fun t =>
+      ({ utcOffset := t.1, isDst := t.2.1, abbrIndex := t.2.2 } : TransitionType)).toArray
+    defaultType := specDefaultType d
+    abbreviations := d.abbrs
+    futureSpec := d.footer }
+
+/-- the second-half sentinel `Load` appends after `ExtendTransitions` when the last time is negative -/
+def addSecondSentinel (z : Zone) : Zone :=
+  let last := (getTrans z (z.transitions.size - 1)).val
+  if last.unixTime < 0 then
+    { z with transitions := z.transitions.push { unixTime := Gen.sentinelSecond, typeIndex := last.typeIndex } }
+  else z
+
+/-- the rest of `Load` on that table: the footer rule (`ExtendTransitions`), the second sentinel, the
+civil-second columns with their order check (`fillCivil`) and the per-type columns (`fillTypes`) -/
+def finish (z0 : Zone) : LoadResult :=
+  match (extendTransitions z0).val with
+  | none => .fail
+  | some z1 =>
+    match (fillCivil (addSecondSentinel z1)).val with
+    | none => .fail
+    | some z3 => .ok (fillTypes z3).val
+
+/-- `ExtendTransitions` accepts the footer of `d` (it parses as a POSIX-TZ rule that agrees with the
+last type of the table, and there is room for its types) -/
+def FooterAccepted (d : TzData) : Prop := (extendTransitions (initialZone d)).val ≠ none
+
+/-- the `ByCivilTime` order check on the extended table does not fail -/
+def CivilOrderAccepted (d : TzData) : Prop :=
+  ∀ z1, (extendTransitions (initialZone d)).val = some z1 → (fillCivil (addSecondSentinel z1)).val ≠ none
+
+/-- the data block fits the model's memory bound (`Load` reads the 32-bit block of a version-1 file,
+the 64-bit block otherwise) -/
+def FitsMemory (cfg : LoadCfg) (hdr : Hdr) (d : TzData) : Prop :=
+  blockLen (if d.version = 0 then 4 else 8) hdr ≤ cfg.maxDataLen
+
+/-- the result of loading a TZif file whose content cctz accepts is a function of the content alone
+(not of the bytes `Load` skips: the 32-bit block of a version-2+ file, the unused parts of the
+headers and of the block, whatever follows the file; nor of what `Skip` past the end would answer) -/
+def load_content_statement : Prop :=
+  ∀ (cfg : LoadCfg) (b : Bytes) (hdr : Hdr) (d : TzData),
+    IsTzif b hdr d → Acceptable hdr d → FitsMemory cfg hdr d →
+      (load cfg b).val = finish (initialZone d)
+
+/-- a structurally valid, acceptable file is only ever rejected because of its footer or by the
+civil-order check: if `Load` fails, the byte string is not a TZif file with acceptable content whose
+footer `ExtendTransitions` accepts and whose extended table passes the order check.  (Holds whatever
+the source answers to a `Skip` past the end; no assumption on `cfg.skipPastEndOk` is needed.) -/
+def load_rejects_statement : Prop :=
+  ∀ (cfg : LoadCfg) (b : Bytes), (load cfg b).val = .fail →
+    ¬ ∃ (hdr : Hdr) (d : TzData), IsTzif b hdr d ∧ Acceptable hdr d ∧ FitsMemory cfg hdr d ∧
+        FooterAccepted d ∧ CivilOrderAccepted d
+
+/-- every TZif file WITHOUT a footer rule (a version-1 file, or a version-2+ file with an empty
+footer) whose content cctz accepts and whose offset changes do not cross each other
+(`CivilOrderOK`, Cctz/Spec/TzifSem.lean) loads successfully.  Files with a non-empty footer are not
+covered by this statement (for them see `load_rejects_statement`, which leaves the footer conditions
+at the level of the model's `ExtendTransitions`). -/
+def load_accepts_statement : Prop :=
+  ∀ (cfg : LoadCfg) (b : Bytes) (hdr : Hdr) (d : TzData),
+    IsTzif b hdr d → Acceptable hdr d → FitsMemory cfg hdr d → d.footer = [] → CivilOrderOK d →
+      ∃ z, (load cfg b).val = .ok z
+
+/-- cctz's before-first-transition type is not always RFC 8536's ("time type 0", §3.2): for the file
+below, in which type 0 is a DST type used by a transition, `Load` chooses type 1 (the rule of older
+tzcode `localtime.c`, and the code's documented intent) -/
+def default_type_rfc_counterexample_statement : Prop :=
+  ∃ (b : Bytes) (z : Zone), (load {} b).val = .ok z ∧ z.defaultType = 1
+
 /-! ### proofs (helper lemmas: Cctz/Proofs/DecodeLemmas.lean and Cctz/Proofs/Dc*.lean) -/
 
 theorem decode : decode_statement :=
   ⟨fun b => ⟨Dc.be32_eq b, Dc.be64_eq b⟩, Dc.be32_range, Dc.be64_range, Dc.be32_four⟩
 
 theorem load_decodes : load_decodes_statement := Dc.load_decodes
+
+theorem isTzif_unique : isTzif_unique_statement := Dc.isTzif_unique
+
+theorem load_decodes_any : load_decodes_any_statement := by
+  intro cfg b z hdr d hl hT
+  obtain ⟨hdr', d', hT', hrest⟩ := load_decodes cfg b z hl
+  obtain ⟨rfl, rfl⟩ := isTzif_unique b hdr hdr' d d' hT hT'
+  exact hrest
+
+theorem initialZone_eq (d : TzData) (hlen : d.times.length = d.idxs.length) :
+    Dc.zoneOf d = initialZone d := by
+  unfold Dc.zoneOf Dc.zone0 initialZone
+  rw [Dc.withFirst_eq d _ hlen]
+  rfl
+
+theorem finish_eq (z0 : Zone) : Dc.finishVal z0 = finish z0 := rfl
+
+theorem load_content : load_content_statement := by
+  intro cfg b hdr d hT hA hM
+  have hl := Dc.isTzif_lengths b hdr d hT
+  rw [Dc.load_of_tzif cfg b hdr d hT hA hM, initialZone_eq d (hl.1.trans hl.2.1.symm), finish_eq]
+
+theorem load_rejects : load_rejects_statement := by
+  rintro cfg b hfail ⟨hdr, d, hT, hA, hM, hF, hC⟩
+  rw [load_content cfg b hdr d hT hA hM] at hfail
+  unfold finish at hfail
+  split at hfail
+  · rename_i h1; exact hF h1
+  · rename_i z1 h1
+    split at hfail
+    · rename_i h3; exact hC z1 h1 h3
+    · cases hfail
+
+theorem load_accepts : load_accepts_statement := by
+  intro cfg b hdr d hT hA hM hf hc
+  have hl := Dc.isTzif_lengths b hdr d hT
+  obtain ⟨z, hz⟩ := Dc.accept_nofooter d (hl.1.trans hl.2.1.symm) hf hc
+  exact ⟨z, by rw [Dc.load_of_tzif cfg b hdr d hT hA hM, hz]⟩
+
+/-- a version-1 file whose type 0 is a DST type used by the second transition -/
+def dstFirstFile : Bytes :=
+  [84, 90, 105, 102, 0] ++ List.replicate 15 0 ++
+  [0,0,0,0, 0,0,0,0, 0,0,0,0, 0,0,0,2, 0,0,0,2, 0,0,0,8] ++
+  [0,0,14,16, 0,1,0,0] ++ [1, 0] ++ [0,0,14,16, 1, 4] ++ [0,0,0,0, 0, 0] ++
+  [85, 84, 67, 0, 68, 83, 84, 0]
+
+theorem default_type_rfc_counterexample : default_type_rfc_counterexample_statement := by
+  refine ⟨dstFirstFile, ?_⟩
+  cases h : (load {} dstFirstFile).val with
+  | ok z =>
+    refine ⟨z, rfl, ?_⟩
+    have : (match (load {} dstFirstFile).val with | .ok z => z.defaultType == 1 | _ => false) = true := by
+      decide +kernel
+    rw [h] at this
+    simpa using this
+  | fail =>
+    have : (match (load {} dstFirstFile).val with | .ok _ => true | _ => false) = true := by
+      decide +kernel
+    rw [h] at this
+    cases this
+  | tooLarge =>
+    have : (match (load {} dstFirstFile).val with | .ok _ => true | _ => false) = true := by
+      decide +kernel
+    rw [h] at this
+    cases this
 
 /-! ### sanity: values, and the hypotheses are satisfiable -/
 
@@ -76,5 +235,72 @@ example : (load {} sampleFile).ok ∧
     (match (load {} sampleFile).val with
      | .ok z => z.transitions.size == 3 && z.types.size == 2 && z.futureSpec == [85, 84, 67, 48]
      | _ => false) = true := by decide +kernel
+
+/-- the content of the 64-bit block of `sampleFile`, its header, and its parts -/
+def sampleData : TzData :=
+  { times := [3600, 65536], idxs := [1, 0], types := [(0, false, 0), (3600, true, 4)],
+    abbrs := [85, 84, 67, 0, 68, 83, 84, 0], footer := [85, 84, 67, 48], version := 50 }
+def sampleHdr : Hdr := ⟨0, 0, 0, 2, 2, 8⟩
+def sampleH1 : Bytes :=
+  [84, 90, 105, 102, 50] ++ List.replicate 15 0 ++
+  [0,0,0,0, 0,0,0,0, 0,0,0,0, 0,0,0,0, 0,0,0,1, 0,0,0,4]
+def sampleH2 : Bytes :=
+  [84, 90, 105, 102, 50] ++ List.replicate 15 0 ++
+  [0,0,0,0, 0,0,0,0, 0,0,0,0, 0,0,0,2, 0,0,0,2, 0,0,0,8]
+
+/-- `sampleFile` is a version-2 TZif file with content `sampleData` in the sense of the specification -/
+theorem sample_isTzif : IsTzif sampleFile sampleHdr sampleData := by
+  refine Or.inr ⟨sampleH1, ⟨0, 0, 0, 0, 1, 4⟩, 50, [0,0,0,0, 0, 0] ++ [85, 84, 67, 0], sampleH2,
+    [0,0,0,0,0,0,14,16, 0,0,0,0,0,1,0,0] ++ [1, 0] ++ [0,0,0,0, 0, 0] ++ [0,0,14,16, 1, 4] ++
+      [85, 84, 67, 0, 68, 83, 84, 0],
+    [85, 84, 67, 48], [], by decide, by unfold IsHeader; decide, by decide, by decide,
+    by unfold IsHeader; decide, by decide, ?_, by decide, rfl⟩
+  exact ⟨by decide, [[0,0,0,0,0,0,14,16], [0,0,0,0,0,1,0,0]], [1, 0],
+    [[0,0,0,0, 0, 0], [0,0,14,16, 1, 4]], [], [], [], by decide, by decide, by decide, by decide,
+    by decide, by decide, by decide, by decide, by decide, by decide, by decide, by decide, by decide⟩
+
+theorem sample_acceptable : Acceptable sampleHdr sampleData :=
+  ⟨by decide, by decide, by decide, by decide, by decide, by decide, by decide, by decide⟩
+
+/-- the hypotheses of `load_content` and the inner conditions of `load_rejects` hold of `sampleFile` -/
+example : IsTzif sampleFile sampleHdr sampleData ∧ Acceptable sampleHdr sampleData ∧
+    FitsMemory {} sampleHdr sampleData ∧ FooterAccepted sampleData ∧ CivilOrderAccepted sampleData := by
+  refine ⟨sample_isTzif, sample_acceptable, by unfold FitsMemory; decide, ?_, ?_⟩
+  · intro h
+    have : (extendTransitions (initialZone sampleData)).val.isSome = true := by decide +kernel
+    rw [h] at this
+    cases this
+  · intro z1 h1 h3
+    have : (match (extendTransitions (initialZone sampleData)).val with
+      | some z1 => (fillCivil (addSecondSentinel z1)).val.isSome
+      | none => false) = true := by decide +kernel
+    rw [h1] at this
+    dsimp only at this
+    rw [h3] at this
+    cases this
+
+/-- the hypothesis of `load_rejects` is satisfiable: the empty byte string is rejected -/
+example : (load {} []).val = .fail := rfl
+
+/-- the same content as a version-1 file (no footer) -/
+def sampleFileV1 : Bytes :=
+  [84, 90, 105, 102, 0] ++ List.replicate 15 0 ++
+  [0,0,0,0, 0,0,0,0, 0,0,0,0, 0,0,0,2, 0,0,0,2, 0,0,0,8] ++
+  [0,0,14,16, 0,1,0,0] ++ [1, 0] ++ [0,0,0,0, 0, 0] ++ [0,0,14,16, 1, 4] ++
+  [85, 84, 67, 0, 68, 83, 84, 0]
+def sampleDataV1 : TzData := { sampleData with footer := [], version := 0 }
+
+/-- the hypotheses of `load_accepts` hold of it -/
+example : IsTzif sampleFileV1 sampleHdr sampleDataV1 ∧ Acceptable sampleHdr sampleDataV1 ∧
+    FitsMemory {} sampleHdr sampleDataV1 ∧ sampleDataV1.footer = [] ∧ CivilOrderOK sampleDataV1 := by
+  refine ⟨Or.inl ⟨[84, 90, 105, 102, 0] ++ List.replicate 15 0 ++
+      [0,0,0,0, 0,0,0,0, 0,0,0,0, 0,0,0,2, 0,0,0,2, 0,0,0,8],
+    [0,0,14,16, 0,1,0,0] ++ [1, 0] ++ [0,0,0,0, 0, 0] ++ [0,0,14,16, 1, 4] ++
+      [85, 84, 67, 0, 68, 83, 84, 0], [], by decide, by unfold IsHeader; decide, ?_, rfl, rfl⟩,
+    ⟨by decide, by decide, by decide, by decide, by decide, by decide, by decide, by decide⟩,
+    by unfold FitsMemory; decide, rfl, by unfold CivilOrderOK; decide⟩
+  exact ⟨by decide, [[0,0,14,16], [0,1,0,0]], [1, 0],
+    [[0,0,0,0, 0, 0], [0,0,14,16, 1, 4]], [], [], [], by decide, by decide, by decide, by decide,
+    by decide, by decide, by decide, by decide, by decide, by decide, by decide, by decide, by decide⟩
 
 end Cctz.C01Decode
